@@ -28,3 +28,5 @@ def run(prog, rep):
     _rio3.run_memtype(prog, rep)
     from ..rules import r_null as _rn
     _rn.run_cstr_args(prog, rep)
+    from ..rules import r_key as _rkx
+    _rkx.run_handles_only(prog, rep)
